@@ -194,7 +194,7 @@ func sharedRoot(fn *ssa.Function, kind string, root ssa.Value) (bool, string) {
 	case "freevar":
 		// a variable captured by a closure: shared when the closure was built at
 		// set-up time and runs per request
-		if fn.Parent() != nil && !perRequest(fn.Parent()) {
+		if decl := freeVarOrigin(fn, root.(*ssa.FreeVar)); decl != nil && !perRequest(decl) {
 			fv := root.(*ssa.FreeVar)
 			if pp, ok := fv.Type().(*types.Pointer); ok && requestOwnedType(pp.Elem()) {
 				return false, ""
@@ -246,9 +246,10 @@ func lockedBefore(ins ssa.Instruction) bool {
 
 func (p *Program) frameCheck(fn *ssa.Function) []frameFinding {
 	var out []frameFinding
-	if fn.Blocks == nil || setupTime(fn) {
+	if fn.Blocks == nil || setupTime(fn) || onceBody(fn) {
 		return nil
 	}
+	summ := p.containerSummaries()
 	key := p.funcKey(fn)
 	add := func(ins ssa.Instruction, what string) {
 		pos := ""
@@ -292,6 +293,20 @@ func (p *Program) frameCheck(fn *ssa.Function) []frameFinding {
 						}
 					}
 					continue
+				}
+				if p.inRepo(callee) {
+					// a shared container handed to a callee that changes it, or that
+					// publishes it into per-request state where later code changes it
+					for j, a := range c.Args {
+						why := summ[callee][j]
+						if why == "" || !isContainer(a.Type()) {
+							continue
+						}
+						kind, root := rootOf(a, 0)
+						if shared, what := sharedRoot(fn, kind, root); shared && !lockedBefore(ins) {
+							add(ins, "passes the container reached from "+what+" to "+callee.Name()+", which "+why)
+						}
+					}
 				}
 				if externalMutator(callee) && len(c.Args) > 0 {
 					kind, root := rootOf(c.Args[0], 0)
@@ -404,4 +419,178 @@ func valueLike(n *types.Named) bool {
 		return true
 	}
 	return false
+}
+
+// freeVarOrigin: the function that declares the variable a closure captured
+// (a closure inside a per-request closure may capture a variable that was
+// declared further out, at set-up time).
+func freeVarOrigin(fn *ssa.Function, fv *ssa.FreeVar) *ssa.Function {
+	for depth := 0; depth < 10; depth++ {
+		par := fn.Parent()
+		if par == nil {
+			return nil
+		}
+		idx := -1
+		for i, f := range fn.FreeVars {
+			if f == fv {
+				idx = i
+			}
+		}
+		if idx < 0 {
+			return par
+		}
+		var bound ssa.Value
+		for _, b := range par.Blocks {
+			for _, ins := range b.Instrs {
+				if mc, ok := ins.(*ssa.MakeClosure); ok && mc.Fn == fn && idx < len(mc.Bindings) {
+					bound = mc.Bindings[idx]
+				}
+			}
+		}
+		up, ok := bound.(*ssa.FreeVar)
+		if !ok {
+			return par // declared in the parent (an Alloc there)
+		}
+		fn, fv = par, up
+	}
+	return nil
+}
+
+// onceBody: a function literal whose only use is as the argument of
+// (*sync.Once).Do runs at most once, with a happens-before edge to every
+// return of Do: its writes are synchronised.
+func onceBody(fn *ssa.Function) bool {
+	par := fn.Parent()
+	if par == nil {
+		return false
+	}
+	uses, once := 0, 0
+	for _, b := range par.Blocks {
+		for _, ins := range b.Instrs {
+			mc, ok := ins.(*ssa.MakeClosure)
+			if !ok || mc.Fn != fn {
+				continue
+			}
+			for _, ref := range *mc.Referrers() {
+				if _, dbg := ref.(*ssa.DebugRef); dbg {
+					continue
+				}
+				uses++
+				if c, ok := ref.(ssa.CallInstruction); ok {
+					if callee := c.Common().StaticCallee(); callee != nil && callee.String() == "(*sync.Once).Do" {
+						once++
+					}
+				}
+			}
+		}
+	}
+	return uses > 0 && uses == once
+}
+
+func isContainer(t types.Type) bool {
+	switch t.Underlying().(type) {
+	case *types.Map, *types.Slice:
+		return true
+	}
+	return false
+}
+
+func throughIface(v ssa.Value) ssa.Value {
+	for {
+		switch x := v.(type) {
+		case *ssa.MakeInterface:
+			v = x.X
+		case *ssa.ChangeType:
+			v = x.X
+		case *ssa.ChangeInterface:
+			v = x.X
+		default:
+			return v
+		}
+	}
+}
+
+// containerSummaries: for every function of the repository, which of its map /
+// slice parameters it changes, or publishes into the request context (where
+// HTMLData.Merge and friends change it later). Least fixpoint over static calls.
+func (p *Program) containerSummaries() map[*ssa.Function]map[int]string {
+	if p.contSumm != nil {
+		return p.contSumm
+	}
+	summ := map[*ssa.Function]map[int]string{}
+	paramIdx := func(fn *ssa.Function, v ssa.Value) int {
+		kind, root := rootOf(throughIface(v), 0)
+		if kind != "param" {
+			return -1
+		}
+		for i, q := range fn.Params {
+			if q == root && isContainer(q.Type()) {
+				return i
+			}
+		}
+		return -1
+	}
+	set := func(fn *ssa.Function, i int, why string) bool {
+		if i < 0 {
+			return false
+		}
+		if summ[fn] == nil {
+			summ[fn] = map[int]string{}
+		}
+		if summ[fn][i] != "" {
+			return false
+		}
+		summ[fn][i] = why
+		return true
+	}
+	for changed := true; changed; {
+		changed = false
+		for _, fn := range p.Funcs {
+			for _, b := range fn.Blocks {
+				for _, ins := range b.Instrs {
+					switch x := ins.(type) {
+					case *ssa.Store:
+						if _, isAlloc := x.Addr.(*ssa.Alloc); !isAlloc {
+							if set(fn, paramIdx(fn, x.Addr), "stores into it") {
+								changed = true
+							}
+						}
+					case *ssa.MapUpdate:
+						if set(fn, paramIdx(fn, x.Map), "updates it") {
+							changed = true
+						}
+					case ssa.CallInstruction:
+						c := x.Common()
+						if c.IsInvoke() {
+							continue
+						}
+						callee := c.StaticCallee()
+						if callee == nil {
+							if bi, ok := c.Value.(*ssa.Builtin); ok && bi.Name() == "delete" && len(c.Args) > 0 {
+								if set(fn, paramIdx(fn, c.Args[0]), "deletes from it") {
+									changed = true
+								}
+							}
+							continue
+						}
+						if callee.String() == "context.WithValue" && len(c.Args) == 3 {
+							if set(fn, paramIdx(fn, c.Args[2]), "publishes it into the request context, where later merges write into it") {
+								changed = true
+							}
+							continue
+						}
+						for j, a := range c.Args {
+							if why := summ[callee][j]; why != "" {
+								if set(fn, paramIdx(fn, a), why+" (via "+callee.Name()+")") {
+									changed = true
+								}
+							}
+						}
+					}
+				}
+			}
+		}
+	}
+	p.contSumm = summ
+	return summ
 }
